@@ -24,6 +24,13 @@ self._estimate_model_statistics(...)      -- `Result.stats`
 if diff < self.tol: return
 print('did not converge')                 -- `Result.printed`
 ```
+Known peculiarities of the code that the abstraction absorbs (reported by the harness as suspected defects,
+not modelled further): in the first iteration of a model that is not a `LinearGAM` instance `coef_` has
+shape `(m, 1)` (`_initial_estimate`), so `diff` is the Frobenius norm of the broadcast `(m, m)` difference
+over `‖coef_new‖`, not the relative change; `Deviance.on_loop_start` is not given the sample weights
+(`Obs.dev` is the unweighted deviance over the rows that survive `_mask`); `co_varnames` includes the local
+variables of a hook, so `Hook.expects` does too.
+
 `logs_` is created only when missing (`if not hasattr(self, 'logs_')`), so a refit **appends** to
 the logs of the previous fits: `pirls` takes the old events and returns old ++ new.
 -/
